@@ -13,7 +13,7 @@ import sys
 import numpy as np
 import pandas as pd
 
-TEMPLATES = ["once", "stateful", "targetvol", "random", "nested", "perm", "momentum", "overtime_nested"]
+TEMPLATES = ["once", "stateful", "targetvol", "random", "nested", "perm", "momentum", "overtime_nested", "equal_limit"]
 CONFIGS = [
     {"data": "d25", "fee": None, "integer": True},
     {"data": "d12", "fee": "propdec", "integer": False},
@@ -48,6 +48,8 @@ def template(name, idx):
         return bt.Strategy("t", [log, A.ClosePositionsAfterDates("closes"), A.RunDaily(), A.SelectThese(["a", "b", "d"]), A.SelectActive(), A.WeighEqually(), A.Rebalance()], [bt.Security("a"), bt.Security("b"), bt.Security("d")])
     if name == "perm_random":
         return bt.Strategy("t", [log, A.ClosePositionsAfterDates("closes"), A.RunDaily(), A.SelectAll(), A.SelectActive(), A.SelectRandomly(2), A.WeighRandomly(), A.Rebalance()], [bt.Security("a"), bt.Security("b"), bt.Security("c"), bt.Security("d")])
+    if name == "equal_limit":
+        return bt.Strategy("t", [log, A.RunDaily(), A.SelectThese(["a", "b", "d"]), A.WeighEqually(), A.LimitDeltas(0.125), A.Rebalance()])
     if name == "momentum":
         return bt.Strategy("t", [log, A.RunWeekly(), A.SelectAll(), A.SelectMomentum(2, lookback=D(days=4)), A.WeighInvVol(lookback=D(days=20)), A.LimitDeltas(0.5), A.Rebalance()])
     if name == "overtime_nested":
@@ -64,12 +66,15 @@ def inputs(cfg):
     data = R.table(cfg["data"], cfg.get("alpha", "exact"))
     idx = data.index
     closes = pd.DataFrame({"date": [idx[len(idx) // 2], idx[3]]}, index=["a", "d"])
-    ad = {"closes": closes}
+    # a table on the data's own index (Backtest re-frames such tables with the synthetic first row:
+    # it must do so on its own copy of the dict)
+    ad = {"closes": closes, "sig": pd.DataFrame(True, index=idx, columns=data.columns)}
     return data, ad
 
 
 def frames_digest(data, ad):
     h = hashlib.sha1()
+    h.update(repr(sorted(ad)).encode())
     for name, fr in [("data", data)] + sorted(ad.items()):
         h.update(name.encode())
         h.update(repr(list(fr.columns)).encode())
@@ -205,7 +210,7 @@ def run(ctx):
     kinds = ["py"] if ctx.tier == "quick" else ["py", "cy"]
     if ctx.tier == "quick":
         k0 = ctx.seed % len(TEMPLATES)
-        tn = sorted(set([TEMPLATES[k0], TEMPLATES[(k0 + 3) % len(TEMPLATES)], "perm", "targetvol", "random"]))
+        tn = sorted(set([TEMPLATES[k0], TEMPLATES[(k0 + 3) % len(TEMPLATES)], "perm", "targetvol", "random", "equal_limit"]))
         seeds = [0, 1, 2, 3]
     else:
         tn = TEMPLATES
